@@ -444,9 +444,66 @@ pub fn bare_parent_modules() -> Vec<(String, Vec<String>, Vec<String>)> {
     v
 }
 
+/// generic ENUM hosts (the generator above derives on structs): lifetime, type and const parameters in five lists x
+/// bound on the declaration or a #[where_clause]; map + try_map, owned and by reference
+pub fn enum_generic_modules() -> Vec<(String, Vec<String>, Vec<String>)> {
+    let mut v = vec![];
+    let d = "#[derive(Clone, Debug, PartialEq)]";
+    // (declaration, plain declaration, arguments, has T, T bounded on the declaration)
+    let shapes: [(&str, &str, &str, bool, bool); 6] = [
+        ("<'a>", "<'a>", "<'a>", false, false),
+        ("<T>", "<T>", "<T>", true, false),
+        ("<T: Clone>", "<T>", "<T>", true, true),
+        ("<const N: usize>", "<const N: usize>", "<N>", false, false),
+        ("<'a, T: Clone>", "<'a, T>", "<'a, T>", true, true),
+        ("<'a, T, const N: usize>", "<'a, T, const N: usize>", "<'a, T, N>", true, false),
+    ];
+    for (decl, plain, args, has_t, bounded) in shapes {
+        let lt = decl.contains("'a");
+        let cn = decl.contains("const N");
+        let mut xf = vec!["x: i32".to_string()];
+        let mut sf = vec!["#[map_ref(*~)] x: i32".to_string()];
+        let mut vals = vec!["x: 1".to_string()];
+        if lt {
+            xf.push("r: &'a i32".into());
+            sf.push("#[map_ref(*~)] r: &'a i32".into());
+            vals.push("r: &la".into());
+        }
+        if has_t {
+            xf.push("t: T".into());
+            sf.push("#[map_ref(~.clone())] t: T".into());
+            vals.push("t: 7i64".into());
+        }
+        if cn {
+            xf.push("arr: [u8; N]".into());
+            sf.push("#[map_ref(*~)] arr: [u8; N]".into());
+            vals.push("arr: [3u8; 2]".into());
+        }
+        let mut m = String::from("#![allow(unused, non_camel_case_types, clippy::all)]\nuse crate::common::*;\n");
+        for n in ["X", "Xf"] {
+            m.push_str(&format!("{d} pub enum {n}{plain} {{ A {{ {} }}, B }}\n", xf.join(", ")));
+        }
+        let wc = if has_t && !bounded { "#[where_clause(T: Clone)]\n" } else { "" };
+        let item = format!("#[map(X{args})]\n#[try_map(Xf{args}, Er)]\n{wc}pub enum S{decl} {{ A {{ {} }}, B }}\n", sf.join(", "));
+        m.push_str(&format!("{d}\n#[derive(o2o::o2o)]\n{}", item));
+        let body = vals.join(", ");
+        m.push_str("pub fn run(r: &mut Rec) {\n  let la = 11;\n");
+        m.push_str(&format!("  {{ let x = X::A {{ {body} }}; let s = S::A {{ {body} }};\n"));
+        m.push_str("    r.eq(\"from_owned\", &S::from(x.clone()), &s); r.eq(\"from_ref\", &S::from(&x), &s);\n");
+        // (the result types are inferred from the expected values)
+        m.push_str("    let y = s.clone().into(); r.eq(\"owned_into\", &y, &x); let y = (&s).into(); r.eq(\"ref_into\", &y, &x); }\n");
+        m.push_str(&format!("  {{ let x = Xf::A {{ {body} }}; let s = S::A {{ {body} }};\n"));
+        m.push_str("    r.eq(\"try_from_owned\", &S::try_from(x.clone()), &Ok::<_, Er>(s.clone())); r.eq(\"try_from_ref\", &S::try_from(&x), &Ok::<_, Er>(s.clone()));\n");
+        m.push_str("    let y = s.clone().try_into(); r.eq(\"try_owned_into\", &y, &Ok::<_, Er>(x.clone())); let y = (&s).try_into(); r.eq(\"try_ref_into\", &y, &Ok::<_, Er>(x.clone())); }\n");
+        m.push_str("}\n");
+        v.push((m, vec![item], vec!["mode=enum-host".to_string(), format!("decl={}", decl), "declaration-form-differs-from-argument-form".to_string()]));
+    }
+    v
+}
+
 pub fn run(tier: &str) -> i32 {
     let rep = Report::new("C11", tier, "exploration");
-    rep.set_rule("every generic parameter list of the deriving type built from {'a, 'b, T, T: Clone, T = i32, T: Clone = i32, const N: usize, const N: usize = 2} with <= 4 parameters in every order Rust allows x own `where` clause x counterpart path {mirror X<'a, T, N>, concrete arguments X<i32> on a non-generic deriving type, lifetime only on the counterpart X<'x> (README 'Lifetimes')} with and without turbofish x #[where_clause] {none, default, dedicated per counterpart} x all 12 conversion kinds (by-reference kinds whenever T can be cloned): matching type definitions are generated next to the derive, plus `bare-parent`: generic deriving types with a bare #[parent] member (the Into impls name the counterpart - not generic, or with arguments of its own - in a let binding): RUSTC must accept every impl, and a test body borrows stack-local (non-'static) data through every by-reference conversion and compares the results. states = distinct test modules; non-trivial = parameter lists whose declaration form differs from their argument form (bounds, defaults, const)");
+    rep.set_rule("every generic parameter list of the deriving type built from {'a, 'b, T, T: Clone, T = i32, T: Clone = i32, const N: usize, const N: usize = 2} with <= 4 parameters in every order Rust allows x own `where` clause x counterpart path {mirror X<'a, T, N>, concrete arguments X<i32> on a non-generic deriving type, lifetime only on the counterpart X<'x> (README 'Lifetimes')} with and without turbofish x #[where_clause] {none, default, dedicated per counterpart} x all 12 conversion kinds (by-reference kinds whenever T can be cloned): matching type definitions are generated next to the derive, plus `enum-generics` (generic enum hosts, 6 parameter lists, map + try_map) and `bare-parent`: generic deriving types with a bare #[parent] member (the Into impls name the counterpart - not generic, or with arguments of its own - in a let binding): RUSTC must accept every impl, and a test body borrows stack-local (non-'static) data through every by-reference conversion and compares the results. states = distinct test modules; non-trivial = parameter lists whose declaration form differs from their argument form (bounds, defaults, const)");
     rep.assume("the oracle is rustc's type checker on the real macro output; leaves are i32 / &i32 / [u8; N] / T");
     let caps = Caps::from_env(if tier == "quick" { 200.0 } else { 1200.0 });
     let items: Mutex<Vec<BItem>> = Mutex::new(vec![]);
@@ -461,6 +518,12 @@ pub fn run(tier: &str) -> i32 {
         items.lock().unwrap().push(BItem { space: "bare-parent".into(), choices: vec![i as u32], tags, inputs, module, nontrivial: true });
     }
     rep.add_stats("bare-parent", "full (5 parameter lists x counterpart generic or not)", &crate::explore::ExploreStats { leaves: nb, transitions: nb, ..Default::default() });
+    let eg = enum_generic_modules();
+    let ne = eg.len() as u64;
+    for (i, (module, inputs, tags)) in eg.into_iter().enumerate() {
+        items.lock().unwrap().push(BItem { space: "enum-generics".into(), choices: vec![i as u32], tags, inputs, module, nontrivial: true });
+    }
+    rep.add_stats("enum-generics", "full (6 parameter lists)", &crate::explore::ExploreStats { leaves: ne, transitions: ne, ..Default::default() });
     if let Err(e) = run_items("C11", items.into_inner().unwrap(), &rep, BOpts { no_std: false, features: "", name: "c11".into(), keep: std::env::var("VERIF_KEEP").is_ok() }) {
         eprintln!("MACHINERY-ERROR: {}", e);
         return 2;
@@ -471,8 +534,8 @@ pub fn run(tier: &str) -> i32 {
 pub fn replay(f: &Failure) -> i32 {
     let mut obs = vec![];
     for round in 0..2 {
-        let item = if f.space == "bare-parent" {
-            match bare_parent_modules().into_iter().enumerate().find(|(i, _)| vec![*i as u32] == f.choices) {
+        let item = if f.space == "bare-parent" || f.space == "enum-generics" {
+            match (if f.space == "bare-parent" { bare_parent_modules() } else { enum_generic_modules() }).into_iter().enumerate().find(|(i, _)| vec![*i as u32] == f.choices) {
                 Some((_, (module, inputs, tags))) => BItem { space: f.space.clone(), choices: f.choices.clone(), tags, inputs, module, nontrivial: true },
                 None => {
                     eprintln!("MACHINERY-ERROR: cannot re-render {:?}", f.choices);
